@@ -669,7 +669,22 @@ func (w *Walker) atomOf(st *wstate, fr *frame, v ssa.Value) (Atom, bool) {
 	if phi, ok := v.(*ssa.Phi); ok {
 		_ = phi
 	}
-	mk := func(a Atom) (Atom, bool) { return a, neg }
+	// comparisons are normalised to <, ==, > with a truth value, so that the
+	// same test written as `a <= b` or `!(a > b)` gives the same atom
+	mk := func(a Atom) (Atom, bool) {
+		n := neg
+		if a.Kind == "cmp" {
+			switch a.R {
+			case LE:
+				a.R, n = GT, !n
+			case GE:
+				a.R, n = LT, !n
+			case NE:
+				a.R, n = EQ, !n
+			}
+		}
+		return a, n
+	}
 	if _, bound := fr.env[v]; !bound {
 		switch x := v.(type) {
 		case *ssa.BinOp:
@@ -962,6 +977,47 @@ func (w *Walker) block(st *wstate, b *ssa.BasicBlock, pred *ssa.BasicBlock) {
 	w.instrs(st, b, 0)
 }
 
+// nilnessAtReturn: is the returned SSA value known (non-)nil because the
+// returning block is dominated by one edge of a nil test of that same value?
+func nilnessAtReturn(v ssa.Value, b *ssa.BasicBlock) (nonNil, known bool) {
+	if _, isConst := v.(*ssa.Const); isConst {
+		return false, false
+	}
+	child := b
+	for d := b.Idom(); d != nil; child, d = d, d.Idom() {
+		iff, ok := d.Instrs[len(d.Instrs)-1].(*ssa.If)
+		if !ok {
+			continue
+		}
+		cmp, ok := iff.Cond.(*ssa.BinOp)
+		if !ok || (cmp.Op != token.NEQ && cmp.Op != token.EQL) {
+			continue
+		}
+		var other ssa.Value
+		switch {
+		case cmp.X == v:
+			other = cmp.Y
+		case cmp.Y == v:
+			other = cmp.X
+		default:
+			continue
+		}
+		if !isNilConst(other) {
+			continue
+		}
+		// which edge of d leads (exclusively) to the returning block?
+		for e := 0; e < 2; e++ {
+			s := d.Succs[e]
+			if (s == child || s.Dominates(b)) && len(s.Preds) == 1 && d.Succs[1-e] != s {
+				trueEdge := e == 0
+				nn := trueEdge == (cmp.Op == token.NEQ)
+				return nn, true
+			}
+		}
+	}
+	return false, false
+}
+
 func (w *Walker) knownNonNil(v string) bool {
 	switch {
 	case strings.HasPrefix(v, "fmt.Errorf@"), strings.HasPrefix(v, "fmt.Errorf("), strings.HasPrefix(v, "errors.New@"), strings.HasPrefix(v, "errors.New("):
@@ -1157,6 +1213,16 @@ func (w *Walker) instrs(st *wstate, b *ssa.BasicBlock, from int) {
 				w.finish(st, "return", rets, in)
 				return
 			}
+			// A helper that returns an error it has itself tested (`if err !=
+			// nil { return err }`) hands a non-nil value to its caller: record
+			// that, even when the rule's filter dropped the helper's own
+			// condition, so the caller's re-test of the same value cannot open
+			// an infeasible path.
+			for i, r := range in.Results {
+				if nn, known := nilnessAtReturn(r, b); known {
+					st.rel.Refine(Atom{Kind: "bool", A: "isnil(" + rets[i] + ")"}, !nn)
+				}
+			}
 			// return into caller
 			st.frames = st.frames[:len(st.frames)-1]
 			caller := st.top()
@@ -1208,6 +1274,16 @@ func (w *Walker) branch(st *wstate, b *ssa.BasicBlock, in *ssa.If) {
 			ns = st.clone()
 		} else {
 			ns = st
+		}
+		if atom.Kind == "bool" && atom.A == "isnil(nil)" && !atruth {
+			continue // a helper returned the constant nil
+		}
+		// a fact already in the state decides the branch even when this rule's
+		// filter does not keep the atom (no new fact is added for dropped atoms)
+		if atom.Kind == "bool" {
+			if v, ok := st.rel.BoolOf(atom.A); ok && v != atruth {
+				continue
+			}
 		}
 		constant := atom.Kind == "bool" && strings.HasPrefix(atom.A, "isnil(") && w.knownNonNil(atom.A[len("isnil("):len(atom.A)-1])
 		if keep && !constant {
